@@ -58,9 +58,15 @@ type solverSpec struct {
 	cmd  func(file string, sec int) []string
 }
 
+var solverSeed int
+
 func solverSpecs(strs bool) []solverSpec {
+	seed := solverSeed
 	cv := solverSpec{"cvc5", func(f string, sec int) []string {
 		a := []string{"cvc5", fmt.Sprintf("--tlimit=%d", sec*1000), "--produce-models"}
+		if seed != 0 {
+			a = append(a, fmt.Sprintf("--seed=%d", seed), "--enum-inst")
+		}
 		if strs {
 			a = append(a, "--strings-exp")
 		}
@@ -71,21 +77,48 @@ func solverSpecs(strs bool) []solverSpec {
 	}
 	return []solverSpec{
 		{"z3-new", func(f string, sec int) []string {
-			return []string{"z3-new", "-smt2", fmt.Sprintf("-T:%d", sec), f}
+			a := []string{"z3-new", "-smt2", fmt.Sprintf("-T:%d", sec)}
+			if seed != 0 {
+				a = append(a, fmt.Sprintf("smt.random_seed=%d", seed), fmt.Sprintf("sat.random_seed=%d", seed))
+			}
+			return append(a, f)
 		}},
 		cv,
 		{"z3", func(f string, sec int) []string {
-			return []string{"z3", "-smt2", fmt.Sprintf("-T:%d", sec), f}
+			a := []string{"z3", "-smt2", fmt.Sprintf("-T:%d", sec)}
+			if seed != 0 {
+				a = append(a, fmt.Sprintf("smt.random_seed=%d", seed), "smt.arith.random_initial_value=true")
+			}
+			return append(a, f)
 		}},
 	}
 }
 
 // Solve runs the solvers on the script. all=true waits for every solver (thorough tier).
+// SolveSeeded: retry with other random seeds / instantiation strategy (specs are built per call,
+// so the seed is passed through a package variable guarded by a mutex).
+var seedMu sync.Mutex
+
+func SolveSeeded(script string, timeoutSec int, strs bool, seed int) SolveResult {
+	seedMu.Lock()
+	solverSeed = seed
+	specs := solverSpecs(strs)
+	solverSeed = 0
+	seedMu.Unlock()
+	return solveWith(specs, script, timeoutSec, false)
+}
+
 func Solve(script string, timeoutSec int, strs bool, all bool) SolveResult {
+	seedMu.Lock()
+	specs := solverSpecs(strs)
+	seedMu.Unlock()
+	return solveWith(specs, script, timeoutSec, all)
+}
+
+func solveWith(specs []solverSpec, script string, timeoutSec int, all bool) SolveResult {
 	file := scratchFile(".smt2")
 	os.WriteFile(file, []byte(script), 0o644)
 	defer os.Remove(file)
-	specs := solverSpecs(strs)
 	ctx, cancel := context.WithCancel(context.Background())
 	defer cancel()
 	ch := make(chan SolverRun, len(specs))
